@@ -37,3 +37,8 @@ claim("C09", "static analysis: guard dominance (SCCP) on every path of Put, fiel
   "Decides that in Put no datastore write, in-memory update or notification is reachable unless every admission check (first instance, non-empty, well-formed, exact successor, delta applies, CID equals the committed table, non-empty table) has passed on that path; that a stale put writes nothing and returns nil; who writes the in-memory head and with what; that the pointer is the last write; capacity-1 drain-then-send notification under the exclusive lock; checkpoint writer/reader agreement and GetPowerTable's range as linear forms; shared key constructors and ascending range reads (C09.R1–R7). Structural necessary conditions; model equivalence over histories is not decided.",
   "AS1 datastore atomic/non-failing; trusts go/types, go/ssa, checker/c09.go.",
   "DESIGN.md §4 C09")
+
+claim("C17", "static analysis: guard dominance (SCCP, both directions of each equality), write ordering, export dataflow shape on certstore/snapshot.go",
+  "Decides that the importer's latest-pointer write and nil return are unreachable when any check fails (header, manifest, per-block decode, contiguity and surplus in both directions, delta, checkpoint and final CID, non-empty, last == header latest), that the pointer is written once and last with certificates stored under their own key, that export sends every byte through the hashing writer with a header bound to (1, first, requested latest, table at first) and the range first…requested latest of raw stored bytes, that the importer's checkpoint writer agrees with the store's reader, and that block framing is symmetric (C17.R1–R5). Structural necessary conditions; observational identity of the imported store is not decided.",
+  "AS1 datastore atomic/non-failing; trusts go/types, go/ssa, checker/c17.go.",
+  "DESIGN.md §4 C17")
